@@ -45,6 +45,9 @@ def seq : List Re → Re
 /-- a literal string -/
 def lit (t : Text) : Re := seq (t.map chr)
 
+/-- `r+` -/
+def plus (r : Re) : Re := cat r (star r)
+
 /-- `[^/]`, `.` with DOTALL, `.` without DOTALL -/
 def notSlash : Re := cls true [('/', '/')]
 def anyChar : Re := cls true []
